@@ -3,7 +3,7 @@
          rule table regenerated from the loaded grammar; that Lark behaves like Rc is what the correspondence tests.
    Sc  = the documented precedence as a stratified grammar (brackets > juxtaposition > AND > XOR > OR).
    flat = the tree modulo the grouping inside runs of one and the same operator (the only thing left unspecified). *)
-From Ahb Require Import Model.Prelude Model.Grammar Gen.Gen_grammar Model.Lex Proofs.C01_parse Proofs.C02_language.
+From Ahb Require Import Model.Prelude Model.Grammar Gen.Gen_grammar Model.Lex Proofs.C01_parse Proofs.C02_language Proofs.C01_lexprint Proofs.C01_print.
 
 Theorem C01_order_table :
   (forall r r', rule_order r <= rule_order r' -> lv rule_alias r <= lv rule_alias r') /\ (forall r, rule_order r < order_then).
@@ -36,3 +36,20 @@ Print Assumptions C01_redundant_brackets.
 Theorem C01_spelling : forall f n l l', same_spelling_class l l' -> canonc f n l = canonc f n l'.
 Proof. exact canon_spelling_invariant. Qed.
 Print Assumptions C01_spelling.
+
+(* at character level: any way of writing a token list -- either spelling and letter case of an operator, any white space
+   between tokens and inside the square brackets -- is lexed back to that token list, so two such writings of the same
+   tokens are parsed to the same result *)
+Theorem C01_written_form_irrelevant : forall l1 t1 l2 t2,
+  Forall (fun p => all_ws (fst p) = true /\ ptok_ok (snd p) = true) l1 -> all_ws t1 = true ->
+  Forall (fun p => all_ws (fst p) = true /\ ptok_ok (snd p) = true) l2 -> all_ws t2 = true ->
+  map (fun p => tok_of (snd p)) l1 = map (fun p => tok_of (snd p)) l2 ->
+  parse_cond (render l1 t1) = parse_cond (render l2 t2).
+Proof. exact same_tokens_same_parse. Qed.
+Print Assumptions C01_written_form_irrelevant.
+
+(* brackets: flattening any forest to tokens (a bracket pair around every group) and grouping it again is the identity, so the
+   grouping the parser sees is exactly the bracket structure that was written *)
+Theorem C01_brackets_read_back : forall its, group (untoks its) = Some its.
+Proof. exact group_untoks. Qed.
+Print Assumptions C01_brackets_read_back.
